@@ -37,14 +37,18 @@ MANIFEST = {
     "note": "Trusted: Coq kernel + vm_compute; translators/tr_timestamp_src.py (fail-closed ast translator); the hand model is tied "
             "to /repo by a correspondence run on every check (boundary-biased datetimes, dates, fixed and zoneinfo (variable, DST, "
             "fold) UTC offsets, timestamp strings incl. lenient spellings and near-misses, STIXdatetime values re-used across "
-            "precisions, values copied/deep-copied/pickled between cleaning and writing; ~3 k of the cases again in workers whose "
+            "precisions incl. values taken from a donor object, which must be written unchanged afterwards, values "
+            "copied/deep-copied/pickled between cleaning and writing; ~3 k questions asked again in one interpreter forward and "
+            "reversed; ~3 k of the cases again in workers whose "
             "process time zone is TZ=JST-9 / EST5EDT, which must give identical answers); quick: ~15 k cases through vm_compute; "
             "thorough: ~1 M cases through the model extracted to OCaml (extract/c15) with a 20 k sample also through vm_compute. "
             "CPython datetime/zoneinfo/strptime/strftime are modelled or used as given, not verified: zone conversion itself is "
             "outside the model (it starts from local fields + the true offset computed by the harness). Oracle-only: nothing; "
-            "every oracle check has a theorem counterpart. Assumed: UTC offsets are whole seconds (sub-second offsets, "
-            "constructible only by hand, are generated for the correspondence but outside theorems and oracle: "
-            "subsecond_offset_excluded shows why); rejected strings (7+ fraction digits) are outside 'accepted strings'. No axioms.",
+            "every oracle check has a theorem counterpart. Theorems assume UTC offsets that are whole seconds (write_aware; "
+            "subsecond_offset_excluded shows the hypothesis is needed for code that truncates before converting); offsets with a "
+            "sub-second part are generated and judged by the oracle against the input instant: the deviation of the current code "
+            "is finding C15-subsecond-utcoffset-truncated-before-utc-conversion (fix proposed; with it such a value is moved to UTC "
+            "first, which the harness models by handing the model the UTC fields); rejected strings (7+ fraction digits) are outside 'accepted strings'. No axioms.",
     "technique": "Coq proof over a hand-written executable model + source-text translation of the digit logic + per-run correspondence with the implementation",
 }
 
@@ -346,6 +350,9 @@ def gen_cases(run, scale):
                 if inp["dt"][6] % 1000 == 0:
                     inp["dt"][6] = rng.choice([1, 999, 1001, 123456, 120001, 999999, 500500])
                 inp["src"] = [sp, sc]
+                donors = [rt for rt in sorted(ROUTES) if ROUTES[rt] == (sp, sc)]
+                if donors and rng.random() < 0.5:
+                    inp["src_route"] = rng.choice(donors)      # the value is taken from a real object (the donor)
                 r = rng.random()
                 if r < 0.45:
                     add("prop", tp, tc, inp)
@@ -455,6 +462,13 @@ def boundary_grid():
             for tp, tc in PC:
                 inp = {"dt": [2016, 2, 29, 23, 59, 59, us], "off": 0, "tz": "utc", "src": [sp, sc]}
                 cases.append({"k": "prop", "p": tp, "c": tc, "in": inp})
+                for donor in sorted(ROUTES):
+                    if ROUTES[donor] == (sp, sc) and us in (1, 123456):
+                        for route in sorted(ROUTES):
+                            if ROUTES[route] == (tp, tc):
+                                cases.append({"k": "obj", "p": tp, "c": tc, "route": route, "in": dict(inp, src_route=donor)})
+                        cases.append({"k": "prop", "p": tp, "c": tc, "in": dict(inp, src_route=donor)})
+                        cases.append({"k": "parse", "p": tp, "c": tc, "in": dict(inp, src_route=donor)})
                 for route in sorted(ROUTES):
                     if ROUTES[route] == (tp, tc):
                         cases.append({"k": "obj", "p": tp, "c": tc, "route": route, "in": inp})
@@ -645,8 +659,18 @@ def input_instant(inp):
 
 
 def split_result(res):
-    out, _, again = res.partition(" || ")
-    return out, again
+    """(answer, second write) -- a trailing ` || DONOR before after` section is read by donor_of"""
+    parts = res.split(" || ")
+    return parts[0], (parts[1] if len(parts) > 1 else "")
+
+
+def donor_of(res):
+    for part in res.split(" || ")[2:]:
+        if part.startswith("DONOR "):
+            x = part.split(" ")
+            if len(x) == 3:
+                return x[1], x[2]
+    return None
 
 
 def written_text(case, out):
@@ -727,6 +751,9 @@ def oracle(cases, results, stats=None):
                   viol("wrong number of fractional digits for precision %s/%s" % (p, c), FINDING_COPY if copy_class else None)
               if not ((fold_class or copy_class or subsec) and t_out != want):      # already reported above
                   groups.setdefault((p, c), []).append((t_in, t_out, case, text))
+          dn = donor_of(res)
+          if dn is not None and dn[0] != dn[1]:
+              viol("handing the value to this property changed how its first owner is written (before %s, after %s)" % dn)
           if again != text:
               viol("write-read-write is not a fixed point (second write gives %s)" % again,
                    FINDING_YEAR if year_class else FINDING_COPY if (copy_class and strict) else None)
@@ -856,7 +883,9 @@ def check(run):
         run.sample({"case": cases[i], "impl": impl[i]})
     def compare(model, which, subset=None):
         idx = range(len(cases)) if subset is None else subset
-        dis = [(cases[i], impl[i], m) for i, m in zip(idx, model) if split_result(impl[i])[0] != m]
+        # (a donor object that cannot even be written -- conversion out of years 1..9999 -- gives no case)
+        dis = [(cases[i], impl[i], m) for i, m in zip(idx, model) if split_result(impl[i])[0] != m
+               and not (impl[i].startswith("BADCASE") and cases[i]["in"].get("src_route"))]
         run.coverage["correspondence_cases_" + which] = len(model)
         run.coverage["correspondence_disagreements"] = run.coverage.get("correspondence_disagreements", 0) + len(dis)
         if dis:
